@@ -21,7 +21,8 @@ class GreensFunctionCache:
 
     Cache key is a SHA-256 hash of the solver inputs that determine the
     Green's function: vertical grid, profiles, domain, modes, measurement
-    point, halo, and precision.
+    point, halo, and precision, plus (when given) the output levels, the
+    grid shape, the analytic flag and the background concentration.
 
     Parameters
     ----------
@@ -33,7 +34,20 @@ class GreensFunctionCache:
         self.cache_dir = Path(cache_dir)
         self.cache_dir.mkdir(parents=True, exist_ok=True)
 
-    def _compute_key(self, z, profiles, domain, modes, meas_pt, halo, precision):
+    def _compute_key(
+        self,
+        z,
+        profiles,
+        domain,
+        modes,
+        meas_pt,
+        halo,
+        precision,
+        levels=None,
+        shape=None,
+        analytic=False,
+        srf_bg_conc=0.0,
+    ):
         """Compute SHA-256 hash from solver inputs."""
         h = hashlib.sha256()
         h.update(np.asarray(z).tobytes())
@@ -44,17 +58,34 @@ class GreensFunctionCache:
         h.update(np.asarray(meas_pt).tobytes())
         h.update(str(halo).encode())
         h.update(precision.encode())
+        # The remaining result-determining inputs. They are optional so that
+        # callers which do not pass them keep their previous keys.
+        if levels is not None:
+            lv = np.atleast_1d(np.asarray(levels))
+            h.update(f"|levels:{lv.dtype.str}:{lv.shape}:".encode())
+            h.update(lv.tobytes())
+        if shape is not None:
+            h.update(f"|shape:{tuple(int(n) for n in shape)}".encode())
+        if analytic:
+            h.update(b"|analytic")
+        if srf_bg_conc != 0.0:
+            h.update(f"|bg:{float(srf_bg_conc)!r}".encode())
         return h.hexdigest()
 
-    def get(self, z, profiles, domain, modes, meas_pt, halo, precision):
+    def get(self, z, profiles, domain, modes, meas_pt, halo, precision, **key_extra):
         """Look up cached result.
+
+        ``key_extra`` takes the optional key inputs of ``_compute_key``
+        (levels, shape, analytic, srf_bg_conc).
 
         Returns
         -------
         tuple or None
             (grid, conc, flx) if cached, None on miss.
         """
-        key = self._compute_key(z, profiles, domain, modes, meas_pt, halo, precision)
+        key = self._compute_key(
+            z, profiles, domain, modes, meas_pt, halo, precision, **key_extra
+        )
         path = self.cache_dir / f"{key}.npz"
         if path.exists():
             logger.debug("Cache hit: %s", key[:12])
@@ -65,10 +96,23 @@ class GreensFunctionCache:
         return None
 
     def put(
-        self, z, profiles, domain, modes, meas_pt, halo, precision, grid, conc, flx
+        self,
+        z,
+        profiles,
+        domain,
+        modes,
+        meas_pt,
+        halo,
+        precision,
+        grid,
+        conc,
+        flx,
+        **key_extra,
     ):
         """Store a result in the cache."""
-        key = self._compute_key(z, profiles, domain, modes, meas_pt, halo, precision)
+        key = self._compute_key(
+            z, profiles, domain, modes, meas_pt, halo, precision, **key_extra
+        )
         path = self.cache_dir / f"{key}.npz"
         X, Y, Z = grid
         np.savez(path, X=X, Y=Y, Z=Z, conc=conc, flx=flx)
